@@ -720,6 +720,32 @@ func (m *C17) runQuery(w *eng.World, sp listSpec, arg, mode string, limit uint64
 	if strings.Join(got, "\x00") != strings.Join(got2, "\x00") {
 		w.Violation("C17", "order-not-stable/"+sp.name, "%s(%q): key walk and offset walk disagree on order:\n%v\n%v", sp.name, arg, got, got2)
 	}
+	// page size left at its default (limit 0) together with an offset or a continuation key
+	if len(got) >= 2 {
+		k := uint64(1)
+		if len(got) > 3 {
+			k = 2
+		}
+		el, _, total, err := page(w, sp, arg, &query.PageRequest{Offset: k, CountTotal: true, Reverse: reverse})
+		if err != nil {
+			w.Violation("C17", "query-error/"+sp.name, "%s(%q) offset %d with default limit failed: %v", sp.name, arg, k, err)
+			return
+		}
+		if strings.Join(el, "\x00") != strings.Join(got[k:], "\x00") || total != uint64(len(want)) {
+			w.Violation("C17", "default-limit-offset-wrong/"+sp.name, "%s(%q) offset %d with default limit returned %d elements (total %d); the walk has %d elements after the offset (total %d)", sp.name, arg, k, len(el), total, len(got)-int(k), len(want))
+		}
+		first, nk, _, err := page(w, sp, arg, &query.PageRequest{Limit: 1, Reverse: reverse})
+		if err == nil && len(first) == 1 && len(nk) > 0 {
+			rest, _, _, err := page(w, sp, arg, &query.PageRequest{Key: nk, Reverse: reverse})
+			if err != nil {
+				w.Violation("C17", "query-error/"+sp.name, "%s(%q) continuation key with default limit failed: %v", sp.name, arg, err)
+				return
+			}
+			if strings.Join(rest, "\x00") != strings.Join(got[1:], "\x00") {
+				w.Violation("C17", "default-limit-key-wrong/"+sp.name, "%s(%q) continuing from the first page's key with default limit returned %d elements, the walk has %d after the first", sp.name, arg, len(rest), len(got)-1)
+			}
+		}
+	}
 	if pages >= 2 && len(want) > 0 && mode == "present" {
 		// strict non-empty subset while a prefix-colliding neighbour exists
 		all, _ := sp.want(s, "")
